@@ -587,3 +587,24 @@ package factstore
 //@   ensures forall p ast.PredicateSym, i uint16, h uint64, k uint64 :: old(ainb(s, p, i, h, k)) ==> bucketsKept(s, a, p, i, h, k, old(abucket(s, p, i, h, k)))
 //@   loop 1 invariant forall p ast.PredicateSym, i uint16, h uint64, k uint64 :: old(ainb(s, p, i, h, k)) ==> bucketsKept(s, a, p, i, h, k, old(abucket(s, p, i, h, k)))
 //@   loop 2 invariant forall p ast.PredicateSym, i uint16, h uint64, k uint64 :: old(ainb(s, p, i, h, k)) ==> bucketsKept(s, a, p, i, h, k, old(abucket(s, p, i, h, k)))
+
+// ---- C13: coalescing works atom by atom ------------------------------------------------------------------------
+// The intervals handed to coalesceIntervals for one atom are collected into a buffer that is empty when the collection
+// for that atom starts (intervals of an atom visited earlier must not leak into the rebuilt tree of a later one).
+//@ func (s *TemporalStore) Coalesce(predicate)
+//@   requires s != nil
+//@   opt nosafety
+//@   guard call All in loop 1: len(intervals) == 0
+
+// ---- C06: the adapter reports an atom once per query ---------------------------------------------------------------
+// (function literal of TemporalFactStoreAdapter.GetFacts: the callback handed to the temporal store) Whatever order the
+// temporal store reports its (atom, interval) pairs in - all intervals of one atom need not come back to back: a
+// teeing store reports the base store first and the output store second - the callback remembers every atom it has
+// passed on for the whole query, and answers nil without passing on one it remembers. (Remembering is by hash: the
+// conflation of equal-hash atoms is the known finding of the hash-keyed stores.)
+//@ func (a *TemporalFactStoreAdapter) GetFacts$1(tf)
+//@   opt nosafety
+//@   requires seen != nil
+//@   ensures seen[tf.Atom.Hash()]
+//@   ensures forall h uint64 :: old(seen[h]) ==> seen[h]
+
